@@ -224,8 +224,12 @@ def replay_biogeme_derivatives(rec) -> dict:
         return dict(mismatches=mism, n=1)
     e2 = Builder(pool, rec['ops'], share=True).build(root)
     fn = e2.create_function(database=DB, gradient=True, hessian=True, bhhh=True)
+    # the expression is prepared again (it becomes the formula of an estimation object) AFTER the function was
+    # created: the function must follow the expression's current numbering
+    b_again = bio.BIOGEME(DB, e2)
     e3 = Builder(pool, rec['ops'], share=True).build(root)
     obj = e3.create_objective_function(database=DB)
+    kept = []   # outputs kept while later evaluations are made: they must not change afterwards
     for p in range(pool.npoints):
         if any(vals[r][p] is None or jets[r][p] is None for r in rows):
             continue
@@ -242,6 +246,7 @@ def replay_biogeme_derivatives(rec) -> dict:
             out = b.calculate_likelihood_and_derivatives(x, scaled=scaled, hessian=True, bhhh=True)
             n += 1
             path = f'BIOGEME.calculate_likelihood_and_derivatives(scaled={scaled})'
+            kept.append((path + ' read again after later evaluations', p, out, f.sum() / div, g.sum(axis=0) / div, h.sum(axis=0) / div, bh.sum(axis=0) / div))
             _cmp_vec(mism, path, p, 'function', [out.function], [f.sum() / div])
             _cmp_vec(mism, path, p, 'gradient', out.gradient, g.sum(axis=0) / div)
             _cmp_vec(mism, path, p, 'hessian', out.hessian, h.sum(axis=0) / div)
@@ -264,6 +269,11 @@ def replay_biogeme_derivatives(rec) -> dict:
             _cmp_vec(mism, 'create_objective_function', p, 'function', [fo.function], [f.sum()])
             _cmp_vec(mism, 'create_objective_function', p, 'gradient', fo.gradient, g.sum(axis=0))
             _cmp_vec(mism, 'create_objective_function', p, 'hessian', fo.hessian, h.sum(axis=0))
+    for path, p, out, wf, wg, wh, wb in kept:
+        _cmp_vec(mism, path, p, 'function', [out.function], [wf])
+        _cmp_vec(mism, path, p, 'gradient', out.gradient, wg)
+        _cmp_vec(mism, path, p, 'hessian', out.hessian, wh)
+        _cmp_vec(mism, path, p, 'bhhh', out.bhhh, wb)
     for c in boundary.LOG:
         if c['call'] == 'calculateLikelihoodAndDerivatives':
             lit = list(c['args'][2]) if not isinstance(c['args'][2], list) else c['args'][2]
